@@ -13,8 +13,8 @@
 #include <stdatomic.h>
 #include <unistd.h>
 
-enum { K_SLEEP, K_PROVIDER, K_SOCKRECV, K_CTXRECV, K_DIAL, K_ACCEPT, K_STREAMRECV, K_SOCKSEND, K_PROTORECV, K_PROTOSEND, K_REQSEND, K_NKINDS };
-static const char *kind_names[] = { "sleep", "provider", "sock-recv", "ctx-recv", "dial-aio", "stream-accept", "stream-recv", "sock-send", "proto-recv", "proto-send", "req-ctx-send" };
+enum { K_SLEEP, K_PROVIDER, K_SOCKRECV, K_CTXRECV, K_DIAL, K_ACCEPT, K_STREAMRECV, K_SOCKSEND, K_PROTORECV, K_PROTOSEND, K_REQSEND, K_STREAMDIAL, K_NKINDS };
+static const char *kind_names[] = { "sleep", "provider", "sock-recv", "ctx-recv", "dial-aio", "stream-accept", "stream-recv", "sock-send", "proto-recv", "proto-send", "req-ctx-send", "stream-dial" };
 
 // K_PROTORECV / K_PROTOSEND: the receive / send path (and cancel function) of
 // further protocols; no conservation is demanded of these (lossy or fan-out)
@@ -213,7 +213,8 @@ cb(void *arg)
 			bool     stale = pick != 0 && pick <= ts && ts - pick < 250ULL * 1000000ULL;
 			if (stale) vf_stat("stale_expiry_classified", 1);
 			snprintf(key, sizeof(key), "C02/timeout-early/%s%s", stale ? "stale-expiry-cancel/" : "", kind_names[r->kind]);
-			vf_violation(key, "%s: NNG_ETIMEDOUT after %.2f ms, configured %d ms", kind_names[r->kind], el_ms, tmo);
+			vf_violation(key, "%s: NNG_ETIMEDOUT after %.2f ms, configured %d ms (expire loop last picked this aio %s%.2f ms %s this submission; submission #%d, callback #%d, cancel_delay %d us)", kind_names[r->kind], el_ms, tmo,
+			    pick == 0 ? "never: " : "", pick == 0 ? 0.0 : (pick <= ts ? (double) (ts - pick) : (double) (pick - ts)) / 1e6, pick <= ts ? "before" : "AFTER", nsub, ncb, r->cancel_delay_us);
 		}
 		break;
 	case NNG_ECANCELED:
@@ -252,6 +253,19 @@ cb(void *arg)
 		// (a refused start reports its own code and the provider did nothing)
 		if (have && fin != rv) {
 			vf_violation("C02/result-changed", "provider finished with %d (%s) but callback saw %d (%s)", fin, resname(fin), rv, resname(rv));
+		}
+	}
+	if (r->kind == K_STREAMDIAL) {
+		nng_stream *st = nng_aio_get_output(r->aio, 0);
+		if (rv == 0 && st == NULL) {
+			vf_violation("C02/dial-ok-without-stream", "stream dial completed with 0 and no stream");
+		} else if (rv != 0 && st != NULL) {
+			vf_violation("C02/error-with-effect/stream-dial", "dial reported %s but a connection is attached to the aio", resname(rv));
+		}
+		if (st != NULL) {
+			int k = atomic_fetch_add(&r->cx->naccepted, 1);
+			if (k < 64) r->cx->accepted[k] = st;
+			nng_aio_set_output(r->aio, 0, NULL);
 		}
 	}
 	if (r->kind == K_ACCEPT && rv != 0 && nng_aio_get_output(r->aio, 0) != NULL) {
@@ -398,6 +412,9 @@ submit(arec *r, bool from_cb)
 	case K_ACCEPT:
 		nng_stream_listener_accept(cx->sl, r->aio);
 		break;
+	case K_STREAMDIAL:
+		nng_stream_dialer_dial(cx->sd, r->aio);
+		break;
 	case K_STREAMRECV: {
 		nng_iov iov = { cx->rbuf[r->idx], 16 };
 		nng_aio_set_iov(r->aio, 1, &iov);
@@ -481,6 +498,7 @@ actor_thread(void *arg)
 			case K_CTXRECV: nng_ctx_close(cx->ctx[best]); break;
 			case K_DIAL: nng_dialer_close(cx->dialer); break;
 			case K_ACCEPT: nng_stream_listener_close(cx->sl); break;
+			case K_STREAMDIAL: nng_stream_dialer_close(cx->sd); break;
 			case K_STREAMRECV: nng_stream_close(cx->st_a); break;
 			default: break;
 			}
@@ -624,6 +642,7 @@ run_case(long idx, vf_rng *r)
 	if (cx->kind == K_DIAL || cx->kind == K_STREAMRECV) cx->nrec = 1;
 	if (cx->kind == K_PROTORECV || cx->kind == K_PROTOSEND) cx->nrec = (int) vf_range(r, 1, 3);
 	if (cx->kind == K_REQSEND) cx->nrec = (int) vf_range(r, 1, 4);
+	if (cx->kind == K_STREAMDIAL) cx->nrec = (int) vf_range(r, 1, 3);
 
 	vf_pt_off();
 	if (pert == 1) vf_pt_jitter(vf_rand(r), (int) vf_range(r, 5, 60), (int) vf_range(r, 20, 300));
@@ -720,12 +739,31 @@ run_case(long idx, vf_rng *r)
 		if ((rv = nng_dialer_create(&cx->dialer, cx->s, durl)) != 0) vf_harness_fail("dialer_create %s", nng_strerror(rv));
 		break;
 	}
+	case K_STREAMDIAL:
 	case K_ACCEPT:
 	case K_STREAMRECV: {
 		int port = 0;
-		if ((rv = nng_stream_listener_alloc(&cx->sl, "tcp://127.0.0.1:0")) != 0 || (rv = nng_stream_listener_listen(cx->sl)) != 0) vf_harness_fail("stream listen %s", nng_strerror(rv));
-		nng_stream_listener_get_int(cx->sl, NNG_OPT_BOUND_PORT, &port);
-		snprintf(durl, sizeof(durl), "tcp://127.0.0.1:%d", port);
+		const char *lurl = (cx->kind == K_STREAMDIAL && vf_chance(r, 1, 3)) ? "ipc:///tmp/vf-c02-sd" : "tcp://127.0.0.1:0";
+		char lbuf[96];
+		if (lurl[0] == 'i') {
+			snprintf(lbuf, sizeof(lbuf), "ipc:///tmp/vf-c02-%d-%ld", (int) getpid(), idx);
+			lurl = lbuf;
+		}
+		if ((rv = nng_stream_listener_alloc(&cx->sl, lurl)) != 0 || (rv = nng_stream_listener_listen(cx->sl)) != 0) vf_harness_fail("stream listen %s", nng_strerror(rv));
+		if (lurl[0] == 'i') {
+			snprintf(durl, sizeof(durl), "%s", lurl);
+		} else {
+			nng_stream_listener_get_int(cx->sl, NNG_OPT_BOUND_PORT, &port);
+			// ("localhost" goes through the resolver thread)
+			snprintf(durl, sizeof(durl), "tcp://%s:%d", cx->kind == K_STREAMDIAL && vf_chance(r, 1, 2) ? "localhost" : "127.0.0.1", port);
+		}
+		if (cx->kind == K_STREAMDIAL && vf_chance(r, 1, 4)) {
+			// nobody listens any more: the dial is refused
+			nng_stream_listener_close(cx->sl);
+			nng_stream_listener_stop(cx->sl);
+			nng_stream_listener_free(cx->sl);
+			cx->sl = NULL;
+		}
 		if ((rv = nng_stream_dialer_alloc(&cx->sd, durl)) != 0) vf_harness_fail("stream dialer %s", nng_strerror(rv));
 		if (cx->kind == K_STREAMRECV) {
 			nng_aio *a1, *a2;
@@ -907,7 +945,15 @@ run_case(long idx, vf_rng *r)
 			for (int q = 0; q < ns && q < 40; q++) {
 				int st = cx->rec[i].send_rv[q], got = cx->got[i][q];
 				if (st == 1 && got != 1) {
-					vf_violation(got == 0 ? "C02/send-ok-but-lost" : "C02/send-duplicated", "pair1 send #%d of aio %d completed with 0 but the peer received it %d times", q, i, got);
+					char tl[400];
+					size_t tn = 0;
+					tl[0] = 0;
+					for (int z = 0; z < cx->nrec; z++) {
+						tn += (size_t) snprintf(tl + tn, sizeof(tl) - tn, " aio%d[act=%s@%dus subs=%d:", z, act_names[p.act[z]], p.act_at_us[z], atomic_load(&cx->rec[z].n_submit));
+						for (int y = 0; y < atomic_load(&cx->rec[z].n_submit) && y < 12 && tn + 8 < sizeof(tl); y++) tn += (size_t) snprintf(tl + tn, sizeof(tl) - tn, "%d/%d,", cx->rec[z].send_rv[y], cx->got[z][y]);
+						if (tn + 2 < sizeof(tl)) tn += (size_t) snprintf(tl + tn, sizeof(tl) - tn, "]");
+					}
+					vf_violation(got == 0 ? "C02/send-ok-but-lost" : "C02/send-duplicated", "pair1 send #%d of aio %d completed with 0 but the peer received it %d times; per aio: action, submissions, then result(1 ok,2 failed)/times-received per submission:%s", q, i, got, tl);
 				} else if (st == 2 && got != 0) {
 					vf_violation("C02/send-failed-but-delivered", "pair1 send #%d of aio %d completed with an error but the peer received the message %d time(s)", q, i, got);
 				}
@@ -944,6 +990,7 @@ run_case(long idx, vf_rng *r)
 		nng_socket_close(cx->s);
 		if (nng_socket_id(cx->peer) > 0) nng_socket_close(cx->peer);
 		break;
+	case K_STREAMDIAL:
 	case K_ACCEPT:
 	case K_STREAMRECV:
 		for (int i = 0; i < atomic_load(&cx->naccepted) && i < 64; i++) {
@@ -954,9 +1001,11 @@ run_case(long idx, vf_rng *r)
 		nng_stream_dialer_close(cx->sd);
 		nng_stream_dialer_stop(cx->sd);
 		nng_stream_dialer_free(cx->sd);
-		nng_stream_listener_close(cx->sl);
-		nng_stream_listener_stop(cx->sl);
-		nng_stream_listener_free(cx->sl);
+		if (cx->sl != NULL) {
+			nng_stream_listener_close(cx->sl);
+			nng_stream_listener_stop(cx->sl);
+			nng_stream_listener_free(cx->sl);
+		}
 		break;
 	default:
 		break;
